@@ -580,6 +580,12 @@ fn gen_key(rng: &mut Rng, paths: &[Vec<Vec<u8>>]) -> Vec<u8> {
             k
         }
         3 => vec![0xFF; rng.range(1, 3) as usize],
+        4 => {
+            // keys that agree on 7 to 17 bytes and differ behind them (in bytes on either side of 0x80)
+            let mut k = vec![0x70u8; *rng.pick(&[7usize, 8, 9, 15, 16, 17])];
+            k.push(*rng.pick(&[0x00u8, 0x01, 0x7F, 0x80, 0xFF]));
+            k
+        }
         _ => {
             let n = rng.range(1, 3) as usize;
             (0..n).map(|_| *rng.pick(&[0x00u8, 0x01, b'a', b'b', 0xFF])).collect()
